@@ -53,6 +53,18 @@ impl<T: ?Sized> RwLock<T> {
         self.writer.set(true);
         RwLockWriteGuard { l: self }
     }
+    /// single-threaded stand-in: succeeds exactly when the lock is free (another thread holding it is not modelled here;
+    /// the Verus unit locks treats the result as arbitrary)
+    pub fn try_write(&self) -> Option<RwLockWriteGuard<'_, T>> {
+        if self.writer.get() || self.readers.get() > 0 { return None; }
+        self.writer.set(true);
+        Some(RwLockWriteGuard { l: self })
+    }
+    pub fn try_read(&self) -> Option<RwLockReadGuard<'_, T>> {
+        if self.writer.get() { return None; }
+        self.readers.set(self.readers.get() + 1);
+        Some(RwLockReadGuard { l: self })
+    }
     pub fn get_mut(&mut self) -> &mut T { self.data.get_mut() }
     /// held in any mode (verification aid)
     pub fn is_locked(&self) -> bool { self.writer.get() || self.readers.get() > 0 }
